@@ -130,6 +130,17 @@ def run(R):
         R.viol("C02.whole-file", "writer-missing", "no file-writing call found in put_verified")
     R.inst("C02.whole-file", "K1 forbidden-callee", "record files are replaced whole (fs::write / File::create / OpenOptions with truncate or create_new)", n, okw)
 
+    # (2d) file name ↔ key: generate_filename and get_data_from_filename are hex encode / decode of the key bytes
+    gf = R.body("C02.filename", NRS + "::generate_filename")
+    gd_ = R.body("C02.filename", NRS + "::get_data_from_filename")
+    if gf is not None and gd_ is not None:
+        enc = [c["ncallee"] for c in gf.calls if (c["ncallee"] or "").startswith("hex::")]
+        dec = [c["ncallee"] for c in gd_.calls if (c["ncallee"] or "").startswith("hex::")]
+        okf = enc == ["hex::encode"] and dec == ["hex::decode"]
+        if not okf:
+            R.viol("C02.filename", "name-codec", "record file names are written with %s but read back with %s" % (enc, dec), gf, gf.lines[0])
+        R.inst("C02.filename", "K7 table agreement", "file name = hex::encode(key); start-up scan reads it back with hex::decode", 2, okf, {"writer": enc, "reader": dec})
+
     # (3) index rebuilt from files
     wc = R.body("C02.rebuild", WITHCFG)
     if wc is not None:
